@@ -14,7 +14,7 @@ CONSTANTS
   Emit = FALSE
   MaxAtt = 2
   Crashes = TRUE
-  StartBy = 14
+  StartBy = 3
   HealOdds = 3
 VIEW View
 INVARIANTS TypeOK InvExclusion InvHolderHasFile InvNotStale InvFresh
